@@ -298,6 +298,36 @@ static void dense_sym_shift(const Data& d, int tycode, double sigma, bool strict
     if (strict)
         s.cond = 1;
     solve_row("DenseSymShiftSolve", "dense", Uplo == UP, Flags == RM, "-", tycode, "shiftsolve", n, s);
+    // the same matrix handed over as a block of a bigger matrix and as a Map with an outer stride (non-contiguous columns / rows)
+    {
+        SolveLog sb = run_solve<Sc>(n, M, xl, [&](int variant) {
+            Mat A = poisoned<Mat>(d.S, Uplo, variant);
+            Mat big = Mat::Constant(n + 3, n + 4, Sc(123));
+            big.block(1, 2, n, n) = A;
+            DenseSymShiftSolve<Sc, Uplo, Flags> op(big.block(1, 2, n, n));
+            Vec x = d.x.cast<double>().template cast<Sc>(), y(n);
+            op.set_shift((Sc) sigma);
+            op.perform_op(x.data(), y.data());
+            return y;
+        });
+        if (strict)
+            sb.cond = 1;
+        solve_row("DenseSymShiftSolve", "dense", Uplo == UP, Flags == RM, "-", tycode, "shiftsolve", n, sb, "block");
+        SolveLog sm = run_solve<Sc>(n, M, xl, [&](int variant) {
+            Mat A = poisoned<Mat>(d.S, Uplo, variant);
+            Mat big = Mat::Constant(n + 2, n + 2, Sc(77));
+            big.topLeftCorner(n, n) = A;
+            Eigen::Map<const Mat, 0, Eigen::OuterStride<> > mp(big.data(), n, n, Eigen::OuterStride<>(n + 2));
+            DenseSymShiftSolve<Sc, Uplo, Flags> op(mp);
+            Vec x = d.x.cast<double>().template cast<Sc>(), y(n);
+            op.set_shift((Sc) sigma);
+            op.perform_op(x.data(), y.data());
+            return y;
+        });
+        if (strict)
+            sm.cond = 1;
+        solve_row("DenseSymShiftSolve", "dense", Uplo == UP, Flags == RM, "-", tycode, "shiftsolve", n, sm, "stridedmap");
+    }
 }
 template <typename Sc, int Uplo, int Flags, typename SI>
 static void sparse_sym_shift(const Data& d, int tycode, double sigma, const char* si)
@@ -356,7 +386,8 @@ static void gen_complex_shift(const Data& d, int tycode, double sr, double si_, 
     typedef Eigen::Matrix<Sc, Eigen::Dynamic, Eigen::Dynamic, Flags> Mat;
     typedef Eigen::Matrix<Sc, Eigen::Dynamic, 1> Vec;
     const int n = d.n;
-    CMatL Mc = d.G.cast<LD>().cast<CLD>() - CLD((LD) (Sc) sr, (LD) (Sc) si_) * CMatL::Identity(n, n);
+    // the shift in force at the end of the history below is (sr, sr): same real part as the one before it, imaginary part equal to the real part
+    CMatL Mc = d.G.cast<LD>().cast<CLD>() - CLD((LD) (Sc) sr, (LD) (Sc) sr) * CMatL::Identity(n, n);
     CMatL Mi = Mc.inverse();
     MatL R = Mi.real();
     VecL xl = d.x.cast<LD>();
@@ -366,13 +397,18 @@ static void gen_complex_shift(const Data& d, int tycode, double sr, double si_, 
     {
         Eigen::SparseMatrix<Sc, Flags, SI> As = A.sparseView();
         SparseGenComplexShiftSolve<Sc, Flags, SI> op(As);
+        op.set_shift((Sc) (sr + 1), (Sc) si_);
         op.set_shift((Sc) sr, (Sc) si_);
+        op.set_shift((Sc) sr, (Sc) sr);
         op.perform_op(x.data(), y.data());
     }
     else
     {
         DenseGenComplexShiftSolve<Sc, Flags> op(A);
+        // earlier shifts on the same object must leave no trace
+        op.set_shift((Sc) (sr + 1), (Sc) si_);
         op.set_shift((Sc) sr, (Sc) si_);
+        op.set_shift((Sc) sr, (Sc) sr);
         op.perform_op(x.data(), y.data());
     }
     SolveLog s;
